@@ -382,6 +382,11 @@ func (g *vcgen) instr(ins ssa.Instruction) {
 			g.stateVar(vn, fmt.Sprintf("(Array %s Bool)", g.s.sortOf(mt.Key())))
 			g.set(vn, fmt.Sprintf("((as const (Array %s Bool)) false)", g.s.sortOf(mt.Key())))
 			g.rangeVis[x] = vn
+			// a map with a positive length has a key (skolem witness): len(m) > 0 ==> has(m, w)
+			has, _, ln := g.mapArrs(mt)
+			mv := g.val(x.X)
+			w := g.freshConst("mapkey", g.s.sortOf(mt.Key()))
+			g.assume(fmt.Sprintf("(=> (and (not (= %s 0)) (> (select %s %s) 0)) (select (select %s %s) %s))", mv, g.get(g.st, ln), mv, g.get(g.st, has), mv, w))
 		}
 	case *ssa.Next:
 		g.next(x)
